@@ -24,6 +24,17 @@ Definition in_ties (i : val) : bool := vbool (vnth 3 (vnth 1 i)).
 Definition in_store (i : val) : list block := vblocks (vnth 2 i).
 Definition in_trace (k : nat) (i : val) : trace := v_trace (vnth k (vnth 3 i)).
 Definition in_fixed (i : val) : bool := vbool (vnth 4 i).
+(* api 3: one reference trace per Dag entry (a Dag the walk never reached has none) *)
+Fixpoint zip_dags (roots : list bytes) (trs : list trace) : list (bytes * trace) :=
+  match roots with
+  | [] => []
+  | r :: rt =>
+    match trs with
+    | [] => (r, mktrace [] false) :: zip_dags rt []
+    | t :: trs' => (r, t) :: zip_dags rt trs'
+    end
+  end.
+Definition in_dags (i : val) : list (bytes * trace) := zip_dags (in_roots i) (map v_trace (vL (vnth 3 i))).
 
 Fixpoint store_get (tab : list block) (c : bytes) : option bytes :=
   match tab with
@@ -102,18 +113,17 @@ Definition run_trav (i : val) : val :=
       VL [VB (fst s); idx_obs (snd s) (in_store i) (in_ties i); v_terr e]
     end
   else if api =? 3 then
-    let roots := in_roots i in
-    let tw := in_trace 0 i in
-    let tp := in_trace 1 i in
-    let wobs := match sc_write (in_ncb_write i) roots (blocks_of (t_loads tw)) (t_ok tw) with
-                | (out, evs, ok) => VL [VB out; v_okerr ok; v_evs evs]
+    let ds := in_dags i in
+    let gets := v_cids (sc_gets_dags ds) in
+    let wobs := match sc_write_dags (in_ncb_write i) ds with
+                | (out, evs, ok) => VL [VB out; v_okerr ok; v_evs evs; gets]
                 end in
-    match sc_prepare roots (blocks_of (t_loads tp)) (t_ok tp) with
-    | None => VL [wobs; VL [VT "other"; VN 0; VL []; VL []]; VL [VT "skipped"]]
+    match sc_prepare_dags ds with
+    | None => VL [wobs; VL [VT "other"; VN 0; VL []; VL []; gets]; VL [VT "skipped"]]
     | Some (size, hroots, cids) =>
       match sc_dump (in_ncb_dump i) (store_get (in_store i)) hroots cids with
       | (out, evs, ok) =>
-        VL [wobs; VL [VT "nil"; VN size; v_cids cids; v_cids hroots]; VL [VB out; v_okerr ok; v_evs evs]]
+        VL [wobs; VL [VT "nil"; VN size; v_cids cids; v_cids hroots; gets]; VL [VB out; v_okerr ok; v_evs evs]]
       end
     end
   else
@@ -121,7 +131,7 @@ Definition run_trav (i : val) : val :=
     let ro := match roots with [] => if in_nilroots i then None else Some [] | _ => Some roots end in
     let tr := in_trace 0 i in
     match write_car ro (blocks_of (t_loads tr)) (t_ok tr) with
-    | (out, ok) => VL [VB out; v_okerr ok]
+    | (out, ok) => VL [VB out; v_okerr ok; v_cids (map fst (first_occ (blocks_of (t_loads tr))))]
     end.
 
 (* ---- layer B on the implementation's observation ------------------------------------------ *)
@@ -236,11 +246,17 @@ Fixpoint cbs_eqb (a b : list cb) : bool :=
   | _, _ => false
   end.
 
+(* evaluated when the implementation reported success: the reference walk of the same (root, selector,
+   options) succeeds too, and the blocks go-car's walk opened (first occurrences) are the reference's *)
+Definition ref_ok (rec ref : trace) : bool :=
+  t_ok ref && tv_blocks_eqb (first_occ (blocks_of (t_loads rec))) (first_occ (blocks_of (t_loads ref))).
+
 Definition prop_trav (i obs : val) : val :=
   let api := in_api i in
   if api =? 0 then
     let tr := in_trace 0 i in
     if negb (tv_is_tag (vnth 2 obs) "nil") then VT "ok"
+    else if negb (ref_ok tr (in_trace 1 i)) then tv_fail "walk-is-the-promised-one" (trace_class tr)
     else let out := vB (vnth 0 obs) in
          if negb (bytes_eqb out (enc_payload [in_root i] (first_occ (blocks_of (t_loads tr)))))
          then tv_fail "exact-once" (trace_class tr)
@@ -249,40 +265,46 @@ Definition prop_trav (i obs : val) : val :=
   else if api =? 1 then
     if negb (tv_is_tag (vnth 0 obs) "ok") then VT "ok"
     else let e := vnth 4 obs in
-         if tv_is_tag e "nil" || tv_is_tag e "sizemismatch"
+         if tv_is_tag e "nil" && negb (ref_ok (in_trace 1 i) (in_trace 2 i))
+         then tv_fail "walk-is-the-promised-one" (trace_class (in_trace 1 i))
+         else if tv_is_tag e "nil" || tv_is_tag e "sizemismatch"
          then check_v2 i (in_trace 1 i) (vB (vnth 1 obs)) (vnth 2 obs) (Some (vN (vnth 3 obs)))
          else VT "ok"
   else if api =? 2 then
-    if tv_is_tag (vnth 2 obs) "nil"
+    if tv_is_tag (vnth 2 obs) "nil" && negb (ref_ok (in_trace 0 i) (in_trace 1 i))
+    then tv_fail "walk-is-the-promised-one" (trace_class (in_trace 0 i))
+    else if tv_is_tag (vnth 2 obs) "nil"
     then check_v2 i (in_trace 0 i) (vB (vnth 0 obs)) (vnth 1 obs) None
     else VT "ok"
   else if api =? 3 then
-    let roots := in_roots i in
-    let tw := in_trace 0 i in
-    let tp := in_trace 1 i in
+    (* reference: what each (root, selector) walk opens, per Dag, in Dag order *)
+    let ds := in_dags i in
+    let roots := dag_roots ds in
+    let ref := fst (dag_loads ds) in
+    let bs := first_occ ref in
+    let cls := if has_repeat [] ref then "repeated-loads"%string else "no-repeats"%string in
     let wobs := vnth 0 obs in let pobs := vnth 1 obs in let dobs := vnth 2 obs in
     let wout := vB (vnth 0 wobs) in
     let wok := tv_is_tag (vnth 1 wobs) "nil" in
     let wevs := v_evs_in (vnth 2 wobs) in
     let kw := in_ncb_write i in let kd := in_ncb_dump i in
-    let bw := first_occ (blocks_of (t_loads tw)) in
-    let cls := trace_class tw in
-    if wok && negb (bytes_eqb wout (enc_payload roots bw)) then tv_fail "exact-once" cls
-    else if wok && negb (callbacks_ok kw wout bw wevs) then tv_fail "callbacks" cls
+    (* which blocks go-car's own run fetched (obs field 3 / 4) is compared with the model only: a run
+       that fetches differently but produces the right output does not violate the property *)
+    if wok && negb (bytes_eqb wout (enc_payload roots bs)) then tv_fail "exact-once" cls
+    else if wok && negb (callbacks_ok kw wout bs wevs) then tv_fail "callbacks" cls
     else if negb (tv_is_tag (vnth 0 pobs) "nil") then VT "ok"
     else
-      let bp := first_occ (blocks_of (t_loads tp)) in
       let size := vN (vnth 1 pobs) in
-      if negb (cids_eqb (vcids (vnth 2 pobs)) (map fst bp)) || negb (cids_eqb (vcids (vnth 3 pobs)) roots)
-      then tv_fail "exact-once" (trace_class tp)
+      if negb (cids_eqb (vcids (vnth 2 pobs)) (map fst bs)) || negb (cids_eqb (vcids (vnth 3 pobs)) roots)
+      then tv_fail "exact-once" cls
       else if tv_is_tag (vnth 0 dobs) "skipped" || negb (tv_is_tag (vnth 1 dobs) "nil") then VT "ok"
       else
         let dout := vB (vnth 0 dobs) in
         let devs := v_evs_in (vnth 2 dobs) in
-        if negb (size =? blen dout) then tv_fail "announced-size" (trace_class tp)
-        else if negb (bytes_eqb dout (enc_payload roots bp)) then tv_fail "exact-once" (trace_class tp)
-        else if negb (callbacks_ok kd dout bp devs) then tv_fail "callbacks" (trace_class tp)
-        else if wok && tv_blocks_eqb bw bp
+        if negb (size =? blen dout) then tv_fail "announced-size" cls
+        else if negb (bytes_eqb dout (enc_payload roots bs)) then tv_fail "exact-once" cls
+        else if negb (callbacks_ok kd dout bs devs) then tv_fail "callbacks" cls
+        else if wok
                 && negb (bytes_eqb dout wout
                          && forallb (fun j => cbs_eqb (reports j devs) (reports j wevs)) (seq 0 (Nat.min kw kd)))
         then tv_fail "dump-eq-write" cls
